@@ -585,3 +585,9 @@ class linqset(linkseq[_T], MutableSequenceSet[_T]):
             departures.__contains__,
             filter(self.__contains__, arrivals)):
             raise Emsg.DuplicateValue(v)
+        seen = set()
+        for v in arrivals:
+            # The new values must be distinct from each other, too.
+            if v in seen:
+                raise Emsg.DuplicateValue(v)
+            seen.add(v)
